@@ -123,6 +123,9 @@ def check(ctx):
                sample={"fn": key, "typed_entries": len(typed), "not_covered": missing})
         ctx.ob("R-2", "%s::to_cbor_value:set-not-reset" % short, not me.set_created_in_loop and not me.set_reset,
                "the duplicate set is not re-created or cleared while encoding", where=f.span)
+        if me.sets:
+            ctx.ob("R-2", "%s::to_cbor_value:set-starts-empty" % short, me.set_starts_empty,
+                   "the duplicate set starts empty: a label is in it only because an entry with that label was emitted", where=f.span)
 
 
 def _is_try_edge(c):
